@@ -254,17 +254,34 @@ func c18SubRule(sub rbacv1.PolicyRule) roles.Rule {
 	return roles.Rule{APIGroup: sub.APIGroups[0], Resource: sub.Resources[0], ResourceName: n, Verb: sub.Verbs[0]}
 }
 
-const c18Neutral = "\x00verif-literal-star"
-
-// c18GrantedWith re-runs the real validator for one granular sub-rule against a modified allow list.
-func c18GrantedWith(allow []rbacv1.PolicyRule, sub rbacv1.PolicyRule) bool {
-	ps := make([]c18PRule, 0, len(allow))
+// c18CrossplaneReading re-reads an allow list and a granular sub-rule the way the two
+// recorded findings describe: star = a literal resource name "*" means all names (D8);
+// emptyURL = the empty non-resource URL is the resource rule group "" resource "" name "".
+// A grant that Kubernetes does not cover but that IS covered under these readings is an
+// instance of the corresponding known finding; anything else is a new violation.
+func c18CrossplaneReading(allow []rbacv1.PolicyRule, sub rbacv1.PolicyRule, star, emptyURL bool) ([]rbacv1.PolicyRule, rbacv1.PolicyRule) {
+	var out []rbacv1.PolicyRule
 	for _, a := range allow {
-		ps = append(ps, c18FromK8s(a))
+		n := *a.DeepCopy()
+		if star && c18Has(n.ResourceNames, "*") {
+			n.ResourceNames = nil
+		}
+		if emptyURL && c18Has(n.NonResourceURLs, "") {
+			var us []string
+			for _, u := range n.NonResourceURLs {
+				if u != "" {
+					us = append(us, u)
+				}
+			}
+			n.NonResourceURLs = us
+			out = append(out, rbacv1.PolicyRule{Verbs: n.Verbs, APIGroups: []string{""}, Resources: []string{""}, ResourceNames: []string{""}})
+		}
+		out = append(out, n)
 	}
-	st := c18Store(c18Scn{Kind: "validate", Allow: ps})
-	rej, err, p := c18Validate(st, "role", []rbacv1.PolicyRule{sub})
-	return p == "" && err == nil && len(rej) == 0
+	if emptyURL && len(sub.NonResourceURLs) > 0 && sub.NonResourceURLs[0] == "" {
+		sub = rbacv1.PolicyRule{Verbs: sub.Verbs, APIGroups: []string{""}, Resources: []string{""}, ResourceNames: []string{""}}
+	}
+	return out, sub
 }
 
 func c18MonValidate(s c18Scn, rej []roles.Rule, verr error) []Mon {
@@ -284,7 +301,8 @@ func c18MonValidate(s c18Scn, rej []roles.Rule, verr error) []Mon {
 	seen := map[string]bool{}
 	for _, q := range s.Requests {
 		for _, sub := range c18Breakdown(q.k8s()) {
-			if rejected[c18SubRule(sub)] {
+			// an empty rejected list is the decision the reconciler acts on: everything is granted
+			if len(rej) > 0 && rejected[c18SubRule(sub)] {
 				continue
 			}
 			// granted: must be covered
@@ -304,32 +322,9 @@ func c18MonValidate(s c18Scn, rej []roles.Rule, verr error) []Mon {
 				continue
 			}
 			sig := "C18:granted-uncovered"
-			// classify: does the grant vanish when literal "*" resource names of the allow list are neutralised?
-			neutral := make([]rbacv1.PolicyRule, len(allow))
-			noEmpty := make([]rbacv1.PolicyRule, len(allow))
-			for i, a := range allow {
-				n := *a.DeepCopy()
-				for j, x := range n.ResourceNames {
-					if x == "*" {
-						n.ResourceNames[j] = c18Neutral
-					}
-				}
-				neutral[i] = n
-				e := *a.DeepCopy()
-				e.NonResourceURLs = nil
-				for _, u := range a.NonResourceURLs {
-					if u != "" {
-						e.NonResourceURLs = append(e.NonResourceURLs, u)
-					}
-				}
-				noEmpty[i] = e
-			}
-			switch {
-			case len(sub.NonResourceURLs) > 0 && sub.NonResourceURLs[0] == "":
-				sig = "C18:empty-url-as-resource-rule"
-			case !c18GrantedWith(neutral, sub):
+			if a2, s2 := c18CrossplaneReading(allow, sub, true, false); c18Covered(a2, s2) {
 				sig = "C18:literal-star-name-as-wildcard"
-			case !c18GrantedWith(noEmpty, sub):
+			} else if a3, s3 := c18CrossplaneReading(allow, sub, true, true); c18Covered(a3, s3) {
 				sig = "C18:empty-url-as-resource-rule"
 			}
 			if !seen[sig] {
